@@ -38,6 +38,13 @@ impl Term {
         }
     }
 
+    /// would a fresh emulator interpret all of these bytes?
+    pub fn understands(bytes: &[u8]) -> bool {
+        let mut t = Term::new();
+        t.feed(bytes);
+        t.gave_up.is_none()
+    }
+
     pub fn feed(&mut self, bytes: &[u8]) {
         for &b in bytes {
             self.feed_byte(b);
